@@ -385,11 +385,22 @@ class VM:
                     cur = _Val(self.field(cur.v, i))
                 else:
                     cur = Ref(cur.kind, cur.key, cur.path + (i,))
-            elif isinstance(p, dict) and 'cidx' in p and not p.get('from_end'):
+            elif isinstance(p, dict) and 'cidx' in p:
+                idx = p['cidx']
+                if p.get('from_end'):
+                    base_v = self.load(cur) if not isinstance(cur, _Val) else cur.v
+                    idx = len(base_v.items) - idx
                 if isinstance(cur, _Val):
-                    cur = _Val(self.field(cur.v, p['cidx']))
+                    cur = _Val(self.field(cur.v, idx))
                 else:
-                    cur = Ref(cur.kind, cur.key, cur.path + (p['cidx'],))
+                    cur = Ref(cur.kind, cur.key, cur.path + (idx,))
+            elif isinstance(p, dict) and 'sub_from' in p:
+                base_v = self.load(cur) if not isinstance(cur, _Val) else cur.v
+                n_ = len(base_v.items)
+                lo = p['sub_from']
+                hi = (n_ - p['sub_to']) if p.get('from_end') else p['sub_to']
+                seq, off = (base_v, 0) if isinstance(base_v, Seq) else (base_v.seq, base_v.lo)
+                cur = _Val(Slice(seq, off + lo, off + hi))
             else:
                 raise Unsupported('projection %r' % (p,))
         return cur
@@ -447,6 +458,9 @@ class VM:
         s = o.get('s', '')
         if s.startswith('const '):
             s = s[6:]
+        if 'SizedTypeProperties>::' in s:
+            # layout constants of a generic type, only read by the pointer checks of debug builds
+            return {'ALIGN': 1, 'SIZE': 1, 'IS_ZST': False}.get(s.rsplit('::', 1)[-1], 1)
         if s == '()':
             return ()
         core_ty = ty.lstrip('&').strip()
@@ -477,6 +491,12 @@ class VM:
         return self._named_const(name, s, ty)
 
     def _named_const(self, name, s='', ty=''):
+        body = self.facts.mir_body(name)
+        if body is not None and body.get('arg_count', 0) == 0:
+            cache = self.__dict__.setdefault('_consts_cache', {})
+            if name not in cache:
+                cache[name] = self.run(body, [])
+            return cache[name]
         if self.facts.body(name) is not None:
             # no MIR for plain consts / statics in the facts: evaluate the (typed) HIR of the initialiser
             from .peval import Evaluator, Unanalysable
@@ -512,6 +532,14 @@ class VM:
         return self.read_place(fr, o['pl'])
 
     def binop(self, op, a, b):
+        if isinstance(a, Ref) and isinstance(b, int) and not isinstance(b, bool):
+            # the address of a live allocation (debug builds check raw pointers before use): aligned and non-null
+            if op == 'BitAnd':
+                return 0
+            if op == 'Eq' and b == 0:
+                return False
+            if op == 'Ne' and b == 0:
+                return True
         if isinstance(a, (Ref, _Val)) or isinstance(b, (Ref, _Val)):
             raise Unsupported('binary %s on references' % op)
         if op == 'Eq':
@@ -849,6 +877,24 @@ class VM:
                         parts.pop()
                     return Iter(parts)
                 raise Unsupported('str method ' + name)
+            if last in ('split_at', 'split_at_checked'):
+                i = d(args[1])
+                b = s.encode('utf-8')
+                try:
+                    if i > len(b):
+                        raise UnicodeDecodeError('utf-8', b, 0, 0, '')
+                    pair = (b[:i].decode('utf-8'), b[i:].decode('utf-8'))
+                except UnicodeDecodeError:
+                    if last == 'split_at_checked':
+                        return NONE
+                    raise Panic('str::split_at(%d) is not on a char boundary / out of range' % i)
+                return pair if last == 'split_at' else Some(pair)
+            if last in ('rsplit_once', 'split_once') and isinstance(d(args[1]), str):
+                p_ = d(args[1])
+                i = s.rfind(p_) if last == 'rsplit_once' else s.find(p_)
+                return Some((s[:i], s[i + len(p_):])) if i >= 0 else NONE
+            if last == 'split_inclusive':
+                raise Unsupported('str::split_inclusive')
             if last == 'is_char_boundary':
                 i = d(args[1])
                 b = s.encode('utf-8')
@@ -924,6 +970,19 @@ class VM:
                 return Enum('core::result::Result', 'Ok', [bytes(a0.items).decode('utf-8')])
             except (UnicodeDecodeError, ValueError):
                 return Enum('core::result::Result', 'Err', ['Utf8Error'])
+        if name in ('Write::write_fmt', 'Write::write_str', 'Write::write_char') and isinstance(a0, str):
+            x = d(args[1])
+            if name == 'Write::write_fmt':
+                x = self.builtin('fmt::format', 'alloc::fmt::format', [x], t)
+            self.store(args[0], a0 + x)
+            return Enum('core::result::Result', 'Ok', [()])
+        if name in ('Ord::cmp', 'PartialOrd::partial_cmp'):
+            a, b = d(args[0]), d(args[1])
+            if isinstance(a, (Seq, Slice)):
+                a, b = list(a.items), list(b.items)
+            if isinstance(a, (int, float, str, list, tuple)) and type(a) == type(b):
+                o = Enum('core::cmp::Ordering', 'Less' if a < b else ('Greater' if a > b else 'Equal'))
+                return o if name == 'Ord::cmp' else Some(o)
         if name in ('AddAssign::add_assign', 'Extend::extend', 'String::extend') and isinstance(a0, str):
             o = d(args[1])
             if isinstance(o, Iter):
@@ -934,6 +993,34 @@ class VM:
             return ()
         if name == 'Add::add' and isinstance(a0, str) and isinstance(d(args[1]), str):
             return a0 + d(args[1])
+        if last == 'new_uninit' and name.startswith('Box') and not args:
+            # `vec![a, b]` lowers to Box::new_uninit + a write of the array through the raw pointer + box_assume_init_into_vec_unsafe
+            cell = Struct('MaybeUninit', {'1': Struct('ManuallyDrop', {'0': Struct('MaybeDangling', {'0': None})})})
+            return Struct('Box', {'0': Struct('Unique', {'0': Ref('obj', cell)})})
+        if last == 'box_assume_init_into_vec_unsafe':
+            cell = d(a0.fields['0'].fields['0'])
+            arr = cell.fields['1'].fields['0'].fields['0']
+            if not isinstance(arr, Seq):
+                raise Unsupported('box_assume_init_into_vec_unsafe of an unwritten box')
+            return arr
+        if name == 'Default::default' and not args:
+            import re as _re
+            m_ = _re.match(r'^<(.+) as core::default::Default>::default$', callee or '')
+            ty_ = m_.group(1) if m_ else ''
+            if ty_ == 'bool':
+                return False
+            if ty_ in ('usize', 'u8', 'u16', 'u32', 'u64', 'u128', 'isize', 'i8', 'i16', 'i32', 'i64', 'i128'):
+                return 0
+            if ty_ in ('f64', 'f32'):
+                return 0.0
+            if ty_ in ('alloc::string::String', '&str', 'str'):
+                return ''
+            if ty_.startswith(('alloc::vec::Vec', 'alloc::collections::vec_deque::VecDeque')):
+                return Seq()
+            if ty_.startswith('core::option::Option'):
+                return NONE
+            if ty_ == '()':
+                return ()
         if name in ('String::new', 'String::with_capacity'):
             return ''
         # --- iterators
@@ -1105,11 +1192,54 @@ class VM:
                 for x in it.rest():
                     self.call_value(args[1], [x])
                 return it
+            if last == 'unzip':
+                pairs = [d(x) for x in it.rest()]
+                it.pos = len(it.items)
+                return (Seq([p_[0] for p_ in pairs]), Seq([p_[1] for p_ in pairs]))
+            if last == 'partition':
+                a_, b_ = [], []
+                for x in it.rest():
+                    (a_ if self.call_value(args[1], [x]) else b_).append(x)
+                it.pos = len(it.items)
+                return (Seq(a_), Seq(b_))
+            if last == 'try_for_each':
+                while it.pos < len(it.items):
+                    x = it.items[it.pos]
+                    it.pos += 1
+                    r = self.call_value(args[1], [x])
+                    if isinstance(r, Enum) and r.variant in ('Err', 'None', 'Break'):
+                        return r
+                return Enum('core::result::Result', 'Ok', [()])
+            if last in ('max_by_key', 'min_by_key'):
+                r = it.rest()
+                it.pos = len(it.items)
+                if not r:
+                    return NONE
+                ks = [d(self.call_value(args[1], [x])) for x in r]
+                best = max(range(len(r)), key=lambda i: (ks[i], i)) if last == 'max_by_key' else min(range(len(r)), key=lambda i: (ks[i], i))
+                return Some(r[best])
+            if last == 'scan':
+                cell = [args[1]]
+                self.heap_counter = getattr(self, 'heap_counter', 0) + 1
+                key = '$scan%d' % self.heap_counter
+                self.heap[key] = args[1]
+                out = []
+                for x in it.rest():
+                    r = self.call_value(args[2], [Ref('heap', key), x])
+                    if is_none(r):
+                        break
+                    out.append(r.payload[0])
+                del self.heap[key]
+                return Iter(out)
+            if last == 'eq':
+                o = d(args[1])
+                return [d(x) for x in it.rest()] == [d(x) for x in (o.rest() if isinstance(o, Iter) else o.items)]
             raise Unsupported('iterator method ' + name)
         if isinstance(a0, (Slice, Seq)) and name.split('::')[0] in ('slice', '[T]', 'Vec') and last in (
                 'len', 'is_empty', 'iter', 'copy_from_slice', 'swap_with_slice', 'split_at_mut', 'split_at', 'to_vec', 'first', 'last', 'fill', 'as_slice',
                 'as_mut_slice', 'iter_mut', 'contains', 'starts_with', 'ends_with', 'clone_from_slice', 'reverse', 'get', 'get_mut', 'first_mut',
-                'last_mut', 'split_first', 'split_last', 'concat', 'swap', 'rotate_left', 'rotate_right', 'copy_within') and not (isinstance(a0, Seq) and last in ('len', 'is_empty', 'iter', 'first', 'last', 'contains')):
+                'last_mut', 'split_first', 'split_last', 'concat', 'swap', 'rotate_left', 'rotate_right', 'copy_within', 'windows', 'chunks',
+                'chunks_exact', 'binary_search', 'binary_search_by', 'binary_search_by_key', 'is_sorted', 'rposition', 'position') and not (isinstance(a0, Seq) and last in ('len', 'is_empty', 'iter', 'first', 'last', 'contains')):
             items = list(a0.items)
             base, off = (a0, 0) if isinstance(a0, Seq) else (a0.seq, a0.lo)
             if last == 'len':
@@ -1175,6 +1305,47 @@ class VM:
                 if last == 'split_first':
                     return Some((items[0], Slice(base, off + 1, off + len(items))))
                 return Some((items[-1], Slice(base, off, off + len(items) - 1)))
+            if last in ('windows', 'chunks', 'chunks_exact'):
+                k = d(args[1])
+                if k == 0:
+                    raise Panic('%s size is zero' % last)
+                if last == 'windows':
+                    return Iter([Slice(base, off + i, off + i + k) for i in range(0, len(items) - k + 1)])
+                return Iter([Slice(base, off + i, off + min(i + k, len(items))) for i in range(0, len(items), k) if last == 'chunks' or i + k <= len(items)])
+            if last in ('binary_search_by_key', 'binary_search_by', 'binary_search'):
+                if last == 'binary_search':
+                    keys = [d(x) for x in items]
+                    target = d(args[1])
+                elif last == 'binary_search_by_key':
+                    keys = [d(self.call_value(args[2], [x])) for x in items]
+                    target = d(args[1])
+                else:
+                    # the closure returns an Ordering for each element
+                    lo_, hi_ = 0, len(items)
+                    while lo_ < hi_:
+                        mid = (lo_ + hi_) // 2
+                        o = self.call_value(args[1], [items[mid]])
+                        ov = o.variant if isinstance(o, Enum) else o
+                        if ov in ('Less', -1):
+                            lo_ = mid + 1
+                        elif ov in ('Greater', 1):
+                            hi_ = mid
+                        else:
+                            return Enum('core::result::Result', 'Ok', [mid])
+                    return Enum('core::result::Result', 'Err', [lo_])
+                lo_, hi_ = 0, len(keys)
+                while lo_ < hi_:
+                    mid = (lo_ + hi_) // 2
+                    if keys[mid] < target:
+                        lo_ = mid + 1
+                    elif keys[mid] > target:
+                        hi_ = mid
+                    else:
+                        return Enum('core::result::Result', 'Ok', [mid])
+                return Enum('core::result::Result', 'Err', [lo_])
+            if last == 'is_sorted':
+                ks = [d(x) for x in items]
+                return all(ks[i] <= ks[i + 1] for i in range(len(ks) - 1))
             if last == 'concat':
                 if all(isinstance(d(x), str) or isinstance(d(x), Struct) for x in items):
                     return ''.join(self.as_text(x) for x in items)
@@ -1230,7 +1401,8 @@ class VM:
                 return ()
             if last == 'drain':
                 r = d(args[1])
-                s_, e_ = r.fields['start'], r.fields['end']
+                s_ = r.fields.get('start', 0)
+                e_ = r.fields.get('end', len(q.items)) + (1 if r.name in ('RangeInclusive', 'RangeToInclusive') else 0)
                 if s_ > e_ or e_ > len(q.items):
                     raise Panic('drain range %d..%d out of bounds (len %d)' % (s_, e_, len(q.items)))
                 out = q.items[s_:e_]
@@ -1507,6 +1679,12 @@ class VM:
             m_ = a0.fields.get('map', a0)
             m_ = d(m_)
             ents = d(m_.fields['entries']) if isinstance(m_, Struct) and 'entries' in m_.fields else None
+            if isinstance(ents, Enum) and ents.payload:
+                ents = d(ents.payload[0])          # phf::Slice::Static(&[..])
+            if isinstance(ents, Struct) and list(ents.fields) == ['0']:
+                ents = d(ents.fields['0'])
+            if not isinstance(ents, (Seq, Slice)):
+                ents = None
             if ents is None:
                 raise Unsupported('phf container without literal entries')
             pairs = [d(x) for x in ents.items]
